@@ -61,7 +61,10 @@ def main():
         ],
         "checks": [],
         "not_applicable": not_applicable(),
-        "notes": "All checks: ./check <ID> --tier quick|thorough (cwd /verif). Exit 0 held / 1 VIOLATION / 2 tool error. See DESIGN.md.",
+        "notes": "All checks: ./check <ID> --tier quick|thorough (cwd /verif). Exit 0 held / 1 VIOLATION / 2 tool error. See DESIGN.md (section 14 = as built). "
+                 "Beyond the listed properties: ./check EXT (specification modules for priority_queue.rs, segment_buffer.rs, bloom_filter.rs, stream_naming.rs, "
+                 "preprocessing.rs; evidence in evidence_ext/) and ./check selftest (trace corruption / coverage self-tests). seeded/ holds independent breaking "
+                 "changes with the checks that catch them (seeded/README.md).",
     }
     for pid in sorted(CHECKS):
         c = CHECKS[pid]
